@@ -9,7 +9,9 @@ Structural part decided here (not the floating-point equality of two runs):
          batched mat-vec with the embedded diagonal matrix; the product selected for scalar / additive / general noise
          is the batched mat-vec itself;
   R17.3  noise-type dependent solver attributes (strong_order, weak_order) are read only by __repr__;
-  R17.4  sdeint derives the same default Brownian shape from a special declaration and from its embedding.
+  R17.4  sdeint derives the same default Brownian shape from a special declaration and from its embedding;
+  R17.5  BaseSDESolver.integrate around the steps (step requests, carried state, outputs between grid points) evaluated
+         with self.sde declared special is the same function of the opaque steps as under the general declaration.
 """
 import ast
 from fractions import Fraction
@@ -40,6 +42,11 @@ EXPLANATION = (
     "be sum_j g[b,i,j] v[b,j]. R17.3: strong_order / weak_order depend on the declared noise type; no function on the "
     "solve path may read them. R17.4: the validation phase of sdeint, evaluated on shape-only tensors with bm=None, "
     "constructs the default BrownianInterval with the same size for a special declaration and for its embedding. "
+    "R17.5: every piece of BaseSDESolver.integrate (prologue, stepping loop, output after the loop, epilogue; fixed and "
+    "adaptive) is run abstractly with self.sde.noise_type set to each declared type and opaque step / noise / SDE calls; "
+    "per case of the loop's own tests the set of outcomes (steps requested, carried state, outputs written, value "
+    "returned) must equal the general declaration's, so a driver that branches on the declaration with identical arms "
+    "passes and one that interpolates, clips or accepts differently for one declaration is reported. "
     "Not decided: bit-level agreement of the element-wise product with the batched mat-vec in floating point; user "
     "SDEs whose general embedding is not the stated one."
 )
@@ -689,8 +696,86 @@ def r17_4(ctx):
     ctx.floor("R17.4", 3)
 
 
+# ------------------------------------------------------------------------------------------------ R17.5
+def _driver_summary(model, dom, nt_value):
+    """Everything `integrate` does around the steps, with `self.sde` declared `nt_value`: per piece of the loop and per
+    path through it, the steps requested, the carried state and the outputs written (opaque step / noise / SDE calls)."""
+    from . import integrate_kit as ik
+    from ..interp import Intrinsic, Obj
+
+    def opaque(name):
+        return Intrinsic(name, lambda it, args, kwargs, node, fi: nf.fn(
+            name, *[a for a in list(args) + [kwargs[k] for k in sorted(kwargs)] if isinstance(a, (Rat, Fraction, int))]))
+    sde_attrs = {"noise_type": nt_value, "sde_type": dom.sde_types.get("ito")}
+    for m in ("f", "g", "f_and_g", "g_prod", "f_and_g_prod", "prod", "g_prod_and_gdg_prod", "dg_ga_jvp_column_sum", "gdg_prod"):
+        sde_attrs[m] = opaque("SDE." + m)
+    attrs = {"sde": Obj("sde", attrs=sde_attrs), "bm": opaque("BM")}
+    fi, prologue, for_node, while_node, tail, epilogue = ik.loop_structure(model)
+    out = {}
+    for adaptive in (False, True):
+        for piece, stmts in (("prologue", prologue), ("stepping loop", while_node.body), ("after the stepping loop", tail),
+                             ("epilogue", epilogue)):
+            if not stmts:
+                continue
+            for p in ik.enumerate_paths(model, adaptive, list(stmts), self_attrs=dict(attrs)):
+                env = p.env
+                ys = env.get("ys")
+                summary = {
+                    "steps": [repr(x[:4]) for x in p.steps],
+                    "raises": [f"{e.exc_name}" for e in p.errors],
+                    "outputs": repr(ik.output_writes(ys)) if ys is not None else None,
+                    "calls": {k: len(v) for k, v in p.extras.items()},
+                    "returned": repr(env.get("@return")),
+                }
+                for name in ik.CARRIED:
+                    summary[name] = repr(env.get(name))
+                # decisions on the declared noise type itself are not part of the case split being compared: a branch on
+                # it whose two arms do the same thing is the same driver
+                label = " & ".join(f"{'' if d else 'not '}({t})" for t, d in p.decisions if "noise_type" not in t) \
+                    or "<straight line>"
+                out.setdefault((adaptive, piece, label), set()).add(tuple(sorted(
+                    (k, repr(v)) for k, v in summary.items())))
+    return fi, out
+
+
+def r17_5(ctx):
+    rep, model = ctx.rep, ctx.model
+    dom = _dom(ctx)
+    rep.rule("R17.5", "the solver-independent driver (BaseSDESolver.integrate around the steps: step requests, carried "
+                      "state, interpolated outputs) is the same function of the steps under a special declaration and "
+                      "under the general one")
+    ref_fi, ref = _driver_summary(model, dom, dom.noise_types["general"])
+    rep.analysed(ref_fi)
+    n = 0
+    for name in SPECIAL:
+        _, got = _driver_summary(model, dom, dom.noise_types[name])
+        for key in sorted(set(ref) | set(got), key=repr):
+            adaptive, piece, label = key
+            a, b = got.get(key), ref.get(key)
+            n += 1
+            construct = f"{ref_fi.key}::R17.5::{name}::{'adaptive' if adaptive else 'fixed'}::{piece}::{label}"
+            if a is None or b is None:
+                rep.fail("R17.5", astq.loc(ref_fi), construct,
+                         f"{piece} of integrate ({'adaptive' if adaptive else 'fixed'} steps): the case `{label}` is "
+                         f"distinguished only under the {'general' if a is None else name} declaration")
+                continue
+            shown = ""
+            if a != b:
+                only = sorted(a - b) or sorted(b - a)
+                other = dict(sorted(b)[0]) if b else {}
+                mine = dict(only[0])
+                k = next((k for k in mine if mine[k] != other.get(k)), None)
+                shown = f"{k} = `{mine.get(k)}` against `{other.get(k)}`"
+            rep.check(a == b, "R17.5", astq.loc(ref_fi), construct,
+                      f"{piece} of integrate ({'adaptive' if adaptive else 'fixed'} steps, case `{label}`): what happens "
+                      f"around the steps differs between the {name} declaration and the general embedding ({shown}): "
+                      f"the driver reads the declared noise type", "same step requests, carried state and outputs")
+    ctx.floor("R17.5", 9)
+
+
 def run(ctx):
     ctx.guard(r17_1)
     ctx.guard(r17_2)
     ctx.guard(r17_3)
     ctx.guard(r17_4)
+    ctx.guard(r17_5)
